@@ -115,6 +115,18 @@ mod c04p {
                         }
                     }
                 }
+                // the same through the command line tool, for every file of the container
+                for f in &created.files {
+                    match cli::check(f) {
+                        Some(v) => {
+                            out.obs.inc("pristine_checks_by_command_line");
+                            if v != "ok:true" {
+                                out.violate(json!({"kind": "pristine-check", "check": "cli/check", "profile": profile()}), format!("C04: `jbk check` on a freshly created {} file ({}, {}) says {v}", f.extension().and_then(|e| e.to_str()).unwrap_or("?"), case.pkg.as_str(), case.content.comp.name()), json!({}));
+                            }
+                        }
+                        None => out.obs.inc("command_line_tool_unavailable"),
+                    }
+                }
             }
             Ok(Err(e)) => out.inconclusive(format!("creation failed (C01/C02's concern): {e}")),
             Err(p) => out.inconclusive(format!("creation panicked (C01/C02's concern): {}", p.msg)),
